@@ -12,7 +12,7 @@ r.builder.prebuild([q])
 gb = r.link(q, '--witness' in extra)
 extra = [e for e in extra if e != '--witness']
 flags = vcore.CBMC_SMT_FLAGS if q.engine == 'smt' else vcore.CBMC_SAT_FLAGS
-cmd = ['cbmc', gb] + [f for f in flags if f != '--slice-formula'] + r.unwind_args(q) + q.extra_cbmc + extra
+cmd = ['cbmc', gb] + [f for f in flags if f != '--slice-formula'] + ([] if '--unwind' in extra else r.unwind_args(q)) + q.extra_cbmc + extra
 print(' '.join(cmd))
 p = subprocess.run(['timeout', '300'] + cmd, capture_output=True, text=True)
 for l in p.stdout.split('\n'):
